@@ -2754,6 +2754,7 @@ static WUR iwrc _cursor_to_lr(struct iwkv_cursor *cur, IWKV_cursor_op op) {
   struct iwlctx *lx = &cur->lx;
   blkn_t dblk = ADDR2BLK(db->addr);
   if (op < IWKV_CURSOR_NEXT) { // IWKV_CURSOR_BEFORE_FIRST | IWKV_CURSOR_AFTER_LAST
+    cur->skip_next = 0;
     if (cur->cn) {
       _sblk_release(lx, &cur->cn);
     }
